@@ -94,3 +94,18 @@ func vpH_C20_T_stop_follower() {
 	vpQuiesce()
 	vpCover("C20.stop-follower")
 }
+
+// a heartbeat Update that is answered after the loop's time-out (the abandoned goroutine finishes later)
+func vpH_C20_T_slow_update() {
+	vpSetOpt("race", 1)
+	tm := vpTimings[0]
+	s := vpLeadingInstance(tm, 0, nil)
+	s.st.ttl = 0
+	s.kv.lat = 1500 * time.Millisecond // time-out is 1s
+	s.kv.latMin = s.kv.lat
+	s.kv.opLeft = 8
+	time.Sleep(5 * tm.H)
+	vpQuiesce()
+	vpCover("C20.slow-update")
+	_ = s.e.Stop()
+}
